@@ -202,11 +202,16 @@ def region_rules(prog, rep):
             f = ci.methods.get("get_initial_regions")
             if f is None or ci.name in ("ffunc", "xfunc"):
                 continue
-            I = Interp(prog, hints.param_types_for(mod), hints.FIELD_TYPES, inline=False)
+            I = Interp(prog, hints.param_types_for(mod), hints.FIELD_TYPES, max_depth=3, no_inline={"as_separate_validity"})  # private allocation helpers are inlined
             I.run(f)
             cube = tm.param("cube")
             base = T("attr", cube, attr)
             allocs = [ev for ev in I.events if ev.kind == "call" and ev["name"] in ("numpy.zeros", "numpy.full", "numpy.empty", "numpy.ones") and ev["args"]]
+            if not allocs or any(tm.contains(ev["args"][0], lambda x: x.op == "unknown") for ev in allocs):
+                n += 1
+                rep.undecided("R-C13-a", f.fq, "regions are allocated with shape cube.%s ++ fact columns" % attr,
+                              "no region allocation read in this method (or a shape the walker could not follow): allocated through a helper that is not inlined?")
+                continue
             bad = []
             for ev in allocs:
                 sh = ev["args"][0]
